@@ -135,6 +135,65 @@ class FA:
                     out.append((n, var, val))
         return out
 
+    def ret_ast(self, n: int, depth: int = 3) -> Tuple[Optional[ast.AST], int]:
+        """The expression a return statement delivers: a bare name that has exactly one reaching definition, a plain single
+        assignment, is resolved to that assignment's value (``tmp = E; return tmp`` is ``return E``).  -> (expr, node at which
+        the expression is evaluated)."""
+        nd = self.cfg.nodes[n]
+        e = nd.ast.value if nd.kind == "stmt" and isinstance(nd.ast, ast.Return) else None
+        at = n
+        for _ in range(depth):
+            if not isinstance(e, ast.Name):
+                break
+            defs = self.cfg.reaching().get(at, {}).get(e.id, set())
+            if len(defs) != 1:
+                break
+            (d,) = defs
+            dn = self.cfg.nodes[d]
+            if dn.kind != "stmt" or not isinstance(dn.ast, ast.Assign) or len(dn.ast.targets) != 1 \
+                    or not isinstance(dn.ast.targets[0], ast.Name):
+                break
+            # only resolve pure temporaries: the name is not used anywhere else
+            other_uses = 0
+            for m in self.cfg.nodes:
+                mn = self.cfg.nodes[m]
+                bare_return = mn.kind == "stmt" and isinstance(mn.ast, ast.Return) and isinstance(mn.ast.value, ast.Name) \
+                    and mn.ast.value.id == e.id
+                if bare_return:
+                    continue
+                other_uses += sum(1 for y in self.cfg.walk_node(m)
+                                  if isinstance(y, ast.Name) and y.id == e.id and isinstance(y.ctx, ast.Load))
+            if other_uses:
+                break
+            e, at = dn.ast.value, d
+        return e, at
+
+    def updates(self, var: str, ops=(ast.Add, ast.Sub)) -> List[Tuple[int, type, ast.AST]]:
+        """(node, operator class, operand expression) of every in-place style update of ``var`` (a local name or 'self.attr'):
+        ``var op= e`` and ``var = var op e`` (for +, also ``var = e + var``)."""
+        out = []
+
+        def is_var(e):
+            if "." in var:
+                base, attr = var.split(".", 1)
+                return isinstance(e, ast.Attribute) and e.attr == attr and isinstance(e.value, ast.Name) and e.value.id == base
+            return isinstance(e, ast.Name) and e.id == var
+
+        for n in sorted(self.cfg.nodes):
+            nd = self.cfg.nodes[n]
+            if nd.kind != "stmt":
+                continue
+            st = nd.ast
+            if isinstance(st, ast.AugAssign) and is_var(st.target) and isinstance(st.op, ops):
+                out.append((n, type(st.op), st.value))
+            elif isinstance(st, ast.Assign) and len(st.targets) == 1 and is_var(st.targets[0]) and isinstance(st.value, ast.BinOp) \
+                    and isinstance(st.value.op, ops):
+                if is_var(st.value.left):
+                    out.append((n, type(st.value.op), st.value.right))
+                elif is_var(st.value.right) and isinstance(st.value.op, ast.Add):
+                    out.append((n, ast.Add, st.value.left))
+        return out
+
     def yields(self) -> List[Tuple[int, ast.AST]]:
         out = []
         for n in sorted(self.cfg.nodes):
